@@ -4,7 +4,7 @@ import os, importlib.util
 ID = "C12"
 PROPS = "Props/C12.v"
 COQ_TIMEOUT = 5400   # Coq build of this property incl. rebuilt dependencies; generous: on a loaded machine a rebuild after an upstream edit took > 1500 s
-GEN = ["sm4tables", "sm4consts"]
+GEN = ["sm4tables", "sm4consts", "tlssuites"]
 LEGS = [{"driver": "c12", "runner": ("sm4gcm", "Extract/ExtractSM4GCM.v", "Sm4gcm_model")}]
 
 TECHNIQUE = ("Coq proof that a function-by-function model of sm4_gcm.go equals a transcription of NIST SP 800-38D (GF(2^128) multiplication, GHASH, "
@@ -19,7 +19,9 @@ LEVEL_TEXT = ("Theorems in Coq (Props/C12.v) over a model of addition, Rightshif
               "for every 16-byte key, IV of any length, A and P; any history of calls returns for each call the specification's value on the values "
               "at call time (nothing is carried between calls); decrypt(encrypt) returns P and the same tag; the returned tag is "
               "E(K,J0) xor GHASH_H(A,C), two tags under one key/IV agree iff the GHASH values agree, GHASH is additive and a difference confined to one "
-              "block Delta leaves the tag unchanged iff Delta.H^(k+1) = 0. The model is run (extracted, block "
+              "block Delta leaves the tag unchanged iff Delta.H^(k+1) = 0. Consumer: every SM4_GCM row of gmtls' suite table names aeadSM4GCM (key 16, implicit nonce 4) - "
+              "a theorem over the regenerated table; that those AEADs compute this GCM with IV = implicit||explicit nonce is checked by the T "
+              "cases only. The model is run (extracted, block "
               "cipher = SM4Spec) against /repo and /repo against crypto/cipher's GCM over sm4.NewCipher (the TLS suites' computation).")
 LEVEL_NOTE = ("Trusted: Coq kernel incl. vm_compute, extraction (ExtrOcamlBasic only), the hand-written model of sm4_gcm.go's control flow (tied "
               "by the differential run), the transcription of SP 800-38D in GCMSpec.v (validated by RFC 8998 A.1 and tied to crypto/cipher by the "
@@ -31,6 +33,7 @@ LEVEL_NOTE = ("Trusted: Coq kernel incl. vm_compute, extraction (ExtrOcamlBasic 
               "destinations are all made inside the functions, are modelled on values; the run checks canaries behind K, IV, A, P, C.")
 TRUSTED_BASE = [
     "translator harness/cmd/gen target sm4consts (integer literals of every function of sm4.go / sm4_gcm.go, package-level variables) -> coq/Gen/SM4Consts.v; sm4tables via the SM4 instantiation",
+    "hook /repo/gmtls/verif_gcmsuites_verif.go (build tag verif): aeadSM4GCM and the GCM rows of gmCipherSuites via mutualCipherSuiteGM; translator target tlssuites (rows of the suite tables) for C12_tls_suites_use_sm4_gcm",
     "specification coq/SM4/GCMSpec.v transcribed by hand from NIST SP 800-38D; validated by RFC 8998 A.1 (SM4-GCM) as an Example",
     "model coq/SM4/GCMModel.v written by hand from sm4/sm4_gcm.go; tied by the correspondence run of this check",
     "block cipher abstract in the theorems; instantiated by SM4Spec in the runner; C05 ties sm4.go's cipher.Block to SM4Spec",
@@ -51,7 +54,10 @@ RULE = ("seeded generator (VERIF_SEED): RFC 8998 A.1; IV lengths 1..64 (random /
         "0..32; every single-bit change of IV, A, C and T for 4 (thorough 16) messages with IV lengths 12, 16, 17, 60 and |A|, |C| crossing 16 and 32 bytes plus truncation/extension and a key bit: the recomputed "
         "tag must differ from T; histories of 2..4 calls (Sm4GCM enc/dec, GCMEncrypt, GCMDecrypt, GetH mixed) on ONE backing array per argument, the "
         "next call's values written in place (key bit flipped / key replaced, IV counted up, data reused), each result checked against the "
-        "values at call time. Every case is encrypted and decrypted, through Sm4GCM and through GCMEncrypt/GCMDecrypt. Non-trivial: all; "
+        "values at call time; CONSUMER leg (hook gmtls/verif_gcmsuites_verif.go): the AEAD of every GCM row of gmCipherSuites (looked up by id through "
+        "mutualCipherSuiteGM) and aeadSM4GCM directly: Seal with plaintext lengths 0,1,15,16,17,80,16384 and histories of 2..5 steps (one key with two "
+        "implicit nonces, incl. nonces differing in one bit; two keys interleaved; AEAD objects reused), each sealed record = GCM with IV = implicit||explicit, "
+        "Sm4GCM-made records must open, records must be rejected under a flipped implicit nonce. Every case is encrypted and decrypted, through Sm4GCM and through GCMEncrypt/GCMDecrypt. Non-trivial: all; "
         "distinct = distinct case text")
 
 _spec = importlib.util.spec_from_file_location("checks._c05_sm4", os.path.join(os.path.dirname(os.path.abspath(__file__)), "c05.py"))
@@ -121,6 +127,8 @@ def classify(f, io):
         return "G:iv%s:%s" % ("12" if len(_unhex(f[3])) == 12 else "x", io[0])
     if f[0] == "Q":
         return "Q:%d calls:%s" % (len(f[2].split(",")), io[0])
+    if f[0] == "T":
+        return "T:%s:%d steps:%s" % (f[2].split(":")[0], len(f[2].split(",")), io[0])
     return "V:%s:%s" % (f[7], io[0])
 
 
@@ -145,7 +153,7 @@ def _hist_expected(call):
 def predicate(f, io):
     if not io or io[0] in ("PANIC", "HANG"):
         return False, "implementation " + (io[0] if io else "gave no result")
-    if f[0] != "Q":
+    if f[0] not in ("Q", "T"):
         key, iv, a = _unhex(f[2]), _unhex(f[3]), _unhex(f[4])
     if f[0] in ("G", "B"):
         p = _unhex(f[5])
@@ -170,6 +178,27 @@ def predicate(f, io):
                 return False, "ciphertext differs from SP 800-38D GCM"
             if py_tag(key, j0, h, a, c) != t:
                 return False, "tag differs from SP 800-38D GCM"
+        return True, ""
+    if f[0] == "T":
+        steps = f[2].split(",")
+        if io[0] != "ok" or len(io) != 2:
+            return False, "TLS suite AEAD: no result (suite missing from the table, or wrong key / implicit nonce length in its row)"
+        outs = io[1].split(",")
+        if len(outs) != len(steps):
+            return False, "TLS suite AEAD: wrong number of results"
+        for i, (st, got) in enumerate(zip(steps, outs)):
+            how, key, fixed, explicit, aad, pt = st.split(":")
+            key, iv, aad, pt = _unhex(key), _unhex(fixed) + _unhex(explicit), _unhex(aad), _unhex(pt)
+            c, j0, h = py_gcm(key, iv, aad, pt)
+            want = c + py_tag(key, j0, h, aad, c)
+            sealed, o1, o2 = got.split("/")
+            who = "aeadSM4GCM" if how == "d" else "GM cipher suite 0x" + how
+            if _unhex(sealed) != want:
+                return False, "%s: sealed record (step %d) is not SM4-GCM with IV = implicit || explicit nonce" % (who, i + 1)
+            if o1 != "1":
+                return False, "%s: a record made by sm4.Sm4GCM is rejected or opens to other bytes (step %d)" % (who, i + 1)
+            if o2 != "1":
+                return False, "%s: a record is accepted by an AEAD whose implicit nonce differs in one bit (step %d)" % (who, i + 1)
         return True, ""
     if f[0] == "Q":
         calls = f[2].split(",")
